@@ -132,6 +132,9 @@ Section Facts.
       | LRaise v' None _ _ => mkFout v' false 0 0
       end.
 
+    Lemma fo_of_code0 r first : fo_of r first 0 = fo_of r false 0.
+    Proof. destruct r as [v' [] k lg|v' [[x k]|] e lg]; destruct first; reflexivity. Qed.
+
     Lemma fo_of_later r c c' : fo_of r false c = fo_of r false c'.
     Proof. destruct r as [v' [] k lg|v' [[x k]|] e lg]; reflexivity. Qed.
 
@@ -300,7 +303,7 @@ Section Facts.
     (if (ec =? c_ec_raise) && negb (all_finite (get_check d (seeded d o v p) p))
      then mkFout (seeded d o v p) false undef_iter c_pre_existing
      else t_loop fm ec (min_iter o) (max_iter o) (tol o) (cv_of d) (Z.of_nat p + 1) (Z.to_nat (max_iter o)) 1
-                 (seeded d o v p) (get_check d (seeded d o v p) p) (-1)).
+                 (seeded d o v p) (get_check d (seeded d o v p) p) 0).
   Proof.
     intros Hs Hm Hp Hchk Hend Hfe Hidx Hg Hoff. unfold FSolve.t_solve_t. rewrite (shape_ncols _ _ _ Hs Hm), Hidx, Hg.
     change (negb (0 =? 0)) with false. cbv iota. unfold seeded.
@@ -334,7 +337,7 @@ Section Facts.
       rows_ok m (check d) -> rows_ok m (endo d) ->
       fm_endo fm = endo_nums d -> fm_lags fm = Z.of_nat (lags d) -> fm_leads fm = Z.of_nat (leads d) ->
       py_pos n t = Some p -> feasible d n p = true ->
-      errors o <> EInvalid -> 0 < max_iter o -> min_iter o <= max_iter o ->
+      errors o <> EInvalid -> min_iter o <= max_iter o ->
       (offset o = 0 \/ 0 <= Z.of_nat p + offset o < Z.of_nat n) ->
       (forall v, shape n m v -> shape n m (evf (Z.of_nat p + 1) v)) ->
       let v0 := seeded d o (vals_of s) p in
@@ -345,7 +348,7 @@ Section Facts.
       regime_from d o p v0 0 N ->
       agree (w_solve_t fm d o t s) (solve_t_M d o t s).
     Proof.
-      intros Hs Hlen Hm Hchk Hend Hfe Hfl Hfd Hpos Hfeas Hinv Hmax Hmm Hoff Hshape v0 N Hev Hbef Haft Hreg.
+      intros Hs Hlen Hm Hchk Hend Hfe Hfl Hfd Hpos Hfeas Hinv Hmm Hoff Hshape v0 N Hev Hbef Haft Hreg.
       pose proof (py_pos_lt _ _ _ Hpos) as Hp.
       destruct (w_ec_valid o Hinv) as (ec & Hec & Hecr).
       assert (Hlt : (max_iter o <? min_iter o) = false) by lia.
@@ -364,19 +367,18 @@ Section Facts.
       destruct (is_raise (errors o) && negb (all_finite (get_check d v0 p))) eqn:Epre.
       { cbn [fst snd]. split; [reflexivity|]. repeat split. }
       assert (Hts : t_solve_t fm v0 (t + 1) (min_iter o) (max_iter o) (tol o) (offset o) (cv_of d) ec
-                    = t_loop fm ec (min_iter o) (max_iter o) (tol o) (cv_of d) (Z.of_nat p + 1) N 1 v0 (get_check d v0 p) (-1)).
+                    = t_loop fm ec (min_iter o) (max_iter o) (tol o) (cv_of d) (Z.of_nat p + 1) N 1 v0 (get_check d v0 p) 0).
       { rewrite (t_solve_t_spec fm d o (t + 1) p n m ec v0 Hs0 Hm Hp Hchk Hend Hfe (t_index_pos n t p Hpos) Hg Hoff).
         replace (seeded d o v0 p) with v0 by (symmetry; apply (seeded_idem n m d o (vals_of s) p Hs Hp Hend Hoff)).
         rewrite Hecr, Epre. reflexivity. }
       rewrite Hts.
       pose proof (sim ev after fm d o t p n m ec v0 N Hev Haft Hshape Hp Hm Hg Hchk Hend Hfe Hec N 0%nat
-                      (log s ++ [EvBefore t]) (-1) ltac:(lia) Hs0 Hreg) as Hsim.
+                      (log s ++ [EvBefore t]) 0 ltac:(lia) Hs0 Hreg) as Hsim.
       pose proof (loop_results ev after d o t p n m ec v0 N Hev Haft Hp Hm Hec N 0%nat
                       (log s ++ [EvBefore t]) ltac:(lia) Hreg) as Hres.
       cbn [iterv] in Hsim, Hres. unfold chk in Hsim, Hres. cbn [iterv] in Hsim, Hres.
       change (Z.of_nat 1) with 1 in Hsim. rewrite Hsim. rewrite Hbef.
-      assert (HN : (N =? 0)%nat = false) by (apply Nat.eqb_neq; unfold N; lia).
-      rewrite HN.
+      rewrite fo_of_code0.
       destruct wrapper_codes as (W0 & W1 & W2 & _).
       destruct template_codes as (_ & _ & _ & _ & _ & _ & _ & _ & _ & Cnr & Cns & _).
       subst N.
